@@ -51,6 +51,7 @@ Inductive Reach : state -> Prop :=
 | RS s s' : Reach s -> Nx s s' = true -> Reach s'.
 
 (* ---------- abstract skeleton ---------- *)
+Definition str := String.string.
 Definition senders_ge (ms : list Messages_t) (t : string) (v : Z) (k : Z) : Prop :=
   exists l, NoDup l /\ k <= Z.of_nat (List.length l) /\ forall x, In x l -> In (mk_Messages t x v) ms.
 Definition rm_upd s s' r (x : RMStates_t) := forall q, In q RM -> v_rmState s' q = if Z.eqb q r then x else v_rmState s q.
@@ -58,13 +59,14 @@ Definition rm_same s s' := forall q, In q RM -> v_rmState s' q = v_rmState s q.
 Definition ms_add s s' m := forall x, In x (v_msgs s') <-> In x (v_msgs s) \/ x = m.
 Definition ms_same s s' := forall x, In x (v_msgs s') <-> In x (v_msgs s).
 Definition setty s r t := mk_RMStates t (vw s r).
-Definition str := String.string.
 
+Definition node_types : list str := ["initialized"; "prepareSent"; "commitSent"; "cv"; "commitAckSent"; "blockAccepted"; "bad"; "dead"]%string.
+Definition msg_types : list str := ["PrepareRequest"; "PrepareResponse"; "Commit"; "CommitAck"; "ChangeView"]%string.
 Inductive AbsNext (s s' : state) : Prop :=
 | A_send r (t0 : list str) t1 mt : In r RM -> In (ty s r) t0 ->
     (forall x, In x t0 -> x <> "commitAckSent" /\ x <> "blockAccepted" /\ x <> "dead" /\ x <> "bad")%string ->
     (t1 <> "blockAccepted" /\ t1 <> "bad" /\ t1 <> "commitAckSent" /\ mt <> "CommitAck")%string ->
-    rm_upd s s' r (setty s r t1) -> ms_add s s' (mk_Messages mt r (vw s r)) -> AbsNext s s'
+    rm_upd s s' r (setty s r t1) -> ms_add s s' (mk_Messages mt r (vw s r)) -> In t1 node_types -> In mt msg_types -> t1 <> "dead"%string -> AbsNext s s'
 | A_ack r : In r RM -> (ty s r <> "bad" /\ ty s r <> "dead" /\ ty s r <> "commitAckSent" /\ ty s r <> "blockAccepted")%string ->
     rm_upd s s' r (setty s r "commitAckSent") -> ms_add s s' (mk_Messages "CommitAck" r (vw s r)) -> AbsNext s s'
 | A_accept r : In r RM -> ty s r <> "bad"%string -> ty s r <> "dead"%string ->
@@ -73,9 +75,9 @@ Inductive AbsNext (s s' : state) : Prop :=
 | A_recvcv r : In r RM -> (ty s r <> "bad" /\ ty s r <> "dead" /\ ty s r <> "blockAccepted" /\ ty s r <> "commitAckSent")%string ->
     rm_upd s s' r (mk_RMStates "initialized" (vw s r + 1)) -> ms_same s s' -> AbsNext s s'
 | A_bebad r : In r RMFault -> rm_upd s s' r (setty s r "bad") -> ms_same s s' -> AbsNext s s'
-| A_fsend r mt : In r RM -> ty s r = "bad"%string -> rm_same s s' -> ms_add s s' (mk_Messages mt r (vw s r)) -> AbsNext s s'
+| A_fsend r mt : In r RM -> ty s r = "bad"%string -> rm_same s s' -> ms_add s s' (mk_Messages mt r (vw s r)) -> In mt msg_types -> AbsNext s s'
 | A_fdocv r : In r RM -> ty s r = "bad"%string -> rm_upd s s' r (mk_RMStates (ty s r) (vw s r + 1)) -> ms_same s s' -> AbsNext s s'
-| A_die r : In r RM -> rm_upd s s' r (setty s r "dead") -> ms_same s s' -> AbsNext s s'
+| A_die r : In r RM -> rm_upd s s' r (setty s r "dead") -> ms_same s s' -> In r RMDead -> AbsNext s s'
 | A_stutter : rm_same s s' -> ms_same s s' -> AbsNext s s'.
 
 (* ---------- refinement: every generated transition is an abstract one ---------- *)
@@ -312,5 +314,89 @@ Proof.
   unfold zmem in X2. destruct (in_dec Z.eq_dec x l2) as [X2'|]; [|discriminate].
   destruct (Hc _ (H1 x X1) eq_refl Hnf) as [_ V1]. destruct (Hc _ (H2 x X2') eq_refl Hnf) as [_ V2]. cbn in V1, V2. congruence.
 Qed.
+(* ---------- TypeOK and InvFaultNodesCount, for every RM ---------- *)
+Record TInv (s : state) : Prop := {
+  ti_ty : forall q, In q RM -> In (ty s q) node_types /\ 0 <= vw s q;
+  ti_ms : forall m, In m (v_msgs s) -> In (Messages_type m) msg_types /\ In (Messages_rm m) RM /\ 0 <= Messages_view m;
+  ti_dead : forall q, In q RM -> ty s q = "dead"%string -> In q RMDead }.
+
+Lemma tinv_init s : d_Init RM s = true -> TInv s.
+Proof.
+  unfold d_Init. intros H. apply andb_true_iff in H. destruct H as [H1 H2].
+  rewrite (fun_eqb_spec _ _ RMStates_eqb_spec) in H1. unfold set_is_empty in H2. destruct (v_msgs s) eqn:E; [|discriminate].
+  split.
+  - intros q Hq. rewrite (H1 q Hq). cbn. split; [auto|lia].
+  - intros m Hm. rewrite E in Hm. destruct Hm.
+  - intros q Hq Hd. rewrite (H1 q Hq) in Hd. discriminate.
+Qed.
+
+Lemma tinv_step s s' : TInv s -> AbsNext s s' -> TInv s'.
+Proof.
+  intros [Hty Hms Hdead] Hn.
+  assert (Hnode : forall q, In q RM ->
+            v_rmState s' q = v_rmState s q \/
+            (In (ty s' q) node_types /\ (vw s' q = vw s q \/ vw s' q = vw s q + 1) /\ (ty s' q = "dead"%string -> In q RMDead \/ ty s q = "dead"%string))).
+  { intros q Hq. unfold setty in *.
+    destruct Hn as [r t0 t1 mt Hr Ht0 Hall Ht1 Hu Hm Hnt Hmt Hnd|r Hr Hk Hu Hm|r Hr Hb Hd Hs Hu Hm|r Hr Hc Hu Hm|r Hr Hu Hm|r mt Hr Hb Hsame Hm Hmt|r Hr Hb Hu Hm|r Hr Hu Hm Hrd|Hsame Hm];
+      try (left; apply Hsame; exact Hq);
+      (destruct (upd_at _ _ _ _ q Hu Hq) as [[-> E]|[_ E]]; [right; rewrite E; cbn|left; exact E]).
+    - split; [exact Hnt|split; [auto|]]. intros Hx. contradiction.
+    - split; [cbn; auto 10|split; [auto|discriminate]].
+    - split; [cbn; auto 10|split; [auto|discriminate]].
+    - split; [cbn; auto 10|split; [auto|discriminate]].
+    - split; [cbn; auto 10|split; [auto|discriminate]].
+    - split; [apply (Hty r Hr)|split; [auto|intros Hx; right; exact Hx]].
+    - split; [cbn; auto 10|split; [auto|intros _; left; exact Hrd]]. }
+  assert (Hmsg : forall m, In m (v_msgs s') -> In m (v_msgs s) \/ (In (Messages_type m) msg_types /\ exists r, In r RM /\ Messages_rm m = r /\ Messages_view m = vw s r)).
+  { intros m Hm'.
+    destruct Hn as [r t0 t1 mt Hr Ht0 Hall Ht1 Hu Ha Hnt Hmt Hnd|r Hr Hk Hu Ha|r Hr Hb Hd Hs Hu Ha|r Hr Hc Hu Ha|r Hr Hu Ha|r mt Hr Hb Hsame Ha Hmt|r Hr Hb Hu Ha|r Hr Hu Ha Hrd|Hsame Ha];
+      apply Ha in Hm'; auto.
+    - destruct Hm' as [Hm'| ->]; auto. right. cbn. split; [exact Hmt|exists r; auto].
+    - destruct Hm' as [Hm'| ->]; auto. right. cbn. split; [auto 10|exists r; auto].
+    - destruct Hm' as [Hm'| ->]; auto. right. cbn. split; [exact Hmt|exists r; auto]. }
+  split.
+  - intros q Hq. destruct (Hnode q Hq) as [E|(A & B & _)]; [rewrite E; apply Hty, Hq|]. split; [exact A|]. destruct (Hty q Hq) as [_ Hv]. destruct B as [-> | ->]; lia.
+  - intros m Hm'. destruct (Hmsg m Hm') as [Ho|(A & r & Hr & B & C)]; [apply Hms, Ho|]. split; [exact A|split; [rewrite B; exact Hr|]]. rewrite C. apply (Hty r Hr).
+  - intros q Hq Hd. destruct (Hnode q Hq) as [E|(_ & _ & C)]; [rewrite E in Hd; apply (Hdead q Hq Hd)|]. destruct (C Hd) as [X|X]; [exact X|apply (Hdead q Hq X)].
+Qed.
+Lemma tinv_reach s : Reach s -> TInv s.
+Proof. induction 1; [apply tinv_init; auto|eapply tinv_step; eauto using gen_refines_abs]. Qed.
+
+Lemma In_types_mem (x : str) (l : list str) : In x l -> set_mem String.eqb x l = true.
+Proof. intros H. unfold set_mem. apply existsb_exists. exists x. split; [exact H|apply String.eqb_refl]. Qed.
+
+Theorem TypeOK_holds s : Reach s -> d_TypeOK RM s = true.
+Proof.
+  intros HR. destruct (tinv_reach s HR) as [Hty Hms _]. unfold d_TypeOK. apply andb_true_iff. split; apply forallb_forall.
+  - intros q Hq. destruct (Hty q Hq) as [A B]. cbv zeta. apply andb_true_iff. split; [apply (In_types_mem _ _ A)|apply Z.leb_le, B].
+  - intros m Hm. destruct (Hms m Hm) as (A & B & C). cbv zeta. rewrite !andb_true_iff. split; [split|].
+    + apply (In_types_mem _ _ A).
+    + apply (set_mem_spec _ Z.eqb_eq). exact B.
+    + apply Z.leb_le, C.
+Qed.
+
+(* the permitted faulty and dead nodes number at most F together (the shipped configurations use one or the other) *)
+Hypothesis Dead_nodup : NoDup RMDead.
+Hypothesis FaultDead_le : Z.of_nat (List.length RMFault) + Z.of_nat (List.length RMDead) <= d_F RM.
+Theorem InvFaultNodesCount_holds s : Reach s -> d_InvFaultNodesCount RM s = true.
+Proof.
+  intros HR. destruct (inv_reach s HR) as [Hbad _ _ _]. destruct (tinv_reach s HR) as [_ _ Hdead].
+  unfold d_InvFaultNodesCount. apply Z.leb_le. unfold card.
+  set (P := fun b_r : Z => (String.eqb (ty s b_r) "bad" || String.eqb (ty s b_r) "dead")%bool).
+  assert (Nf : NoDup (filter P RM)) by (apply NoDup_filter, RM_nodup).
+  rewrite (dedup_id _ Nf).
+  assert (Hsplit : (List.length (filter P RM) <= List.length (filter (zmem RMFault) (filter P RM)) + List.length (filter (fun x => negb (zmem RMFault x)) (filter P RM)))%nat).
+  { generalize (filter P RM). clear. induction l as [|a l IH]; cbn; [lia|]. destruct (zmem RMFault a); cbn; lia. }
+  assert (H1 : (List.length (filter (zmem RMFault) (filter P RM)) <= List.length RMFault)%nat).
+  { apply NoDup_incl_length; [apply NoDup_filter, Nf|]. intros x Hx. apply filter_In in Hx. destruct Hx as [_ Hx]. unfold zmem in Hx. destruct (in_dec Z.eq_dec x RMFault); [assumption|discriminate]. }
+  assert (H2 : (List.length (filter (fun x => negb (zmem RMFault x)) (filter P RM)) <= List.length RMDead)%nat).
+  { apply NoDup_incl_length; [apply NoDup_filter, Nf|]. intros x Hx. apply filter_In in Hx. destruct Hx as [Hx Hn]. apply filter_In in Hx. destruct Hx as [Hr Hp].
+    unfold P in Hp. apply orb_true_iff in Hp. destruct Hp as [Hp|Hp]; apply String.eqb_eq in Hp.
+    - exfalso. pose proof (Hbad x Hr Hp) as Hf. unfold zmem in Hn. destruct (in_dec Z.eq_dec x RMFault); [discriminate|contradiction].
+    - apply (Hdead x Hr Hp). }
+  lia.
+Qed.
 End Safety.
 Print Assumptions InvTwoBlocksAccepted_holds.
+Print Assumptions TypeOK_holds.
+Print Assumptions InvFaultNodesCount_holds.
